@@ -13,7 +13,7 @@ def cap(k):
 
 def jobs(tier):
     J = []
-    ks = (8,) if tier == 'quick' else (6, 8, 10)
+    ks = (8,) if tier == 'quick' else (6, 8)
     for k in ks:
         for nd in ((True,) if tier == 'quick' else (True, False)):
             d = {'NDEBUG': None} if nd else {}
